@@ -110,6 +110,21 @@ class PipeScenario(Scenario):
                     raise Injected("f(%r)" % (x,))
                 return x
             return up.map_async(f, parallelism=a[0])
+        if name == "map_async_raisecall":
+            # the mapped function raises when it is *called* (before any coroutine exists) for element 1
+            def f(x):
+                if x == 1:
+                    raise Injected("f(%r) at call" % (x,))
+                g = scen.gate("f:%r" % (x,))
+                scen.log.append(("f-in", "f", scen.loop.time(), _freeze(x)))
+                out = scen.loop.create_future()
+
+                def done(fut):
+                    scen.log.append(("f-out", "f", scen.loop.time(), _freeze(x)))
+                    out.set_result(x)
+                g.fut.add_done_callback(done)
+                return out
+            return up.map_async(f, parallelism=a[0])
         if name == "map_async_eager":
             # a mapped function that starts its work when *called* and hands back a future
             # (executor.submit / gen.coroutine style), unlike a lazy native coroutine
